@@ -64,29 +64,6 @@ Proof. repeat split; reflexivity. Qed.
    the C20_refuted witness that rests on the same fact) stops checking, while C20_partial_any_shape keeps
    holding for the new shape. *)
 Lemma code_shape_is :
-  code_shape = {| sh_gate_capacity := false; sh_gate_exempts_forget := true; sh_write_gate := true; sh_commit_skips := true |}.
-Proof. reflexivity. Qed.
-
-(* Control flow of the ten async handlers as read off the source: number of `?` early exits (argument decode
-   failures: no reply on either path), explicit `return`s, error replies and ok replies.  The model's handlers
-   were written from bodies with exactly this shape; a change of any count (e.g. a decode failure that stops
-   answering, a reply that is no longer sent) breaks this lemma before any request is run. *)
-Lemma async_handler_fingerprints :
-  rust_async_fingerprints =
-  [(1, "async_lookup", (1, 1, 3, 1));
-   (3, "async_getattr", (1, 0, 0, 1));
-   (4, "async_setattr", (1, 0, 0, 1));
-   (14, "async_open", (1, 0, 1, 1));
-   (15, "async_read", (3, 1, 1, 1));
-   (16, "async_write", (1, 1, 2, 1));
-   (20, "async_fsync", (1, 0, 1, 1));
-   (30, "async_fsyncdir", (1, 0, 1, 1));
-   (35, "async_create", (2, 1, 2, 1));
-   (43, "async_fallocate", (1, 0, 1, 1))].
-Proof. reflexivity. Qed.
-
-(* the handlers that decode a name ([awith_name] in the model: lookup and create) answer EINVAL on a
-   bytes_to_cstr failure before returning the error, as the sync handlers do *)
-Lemma async_badname_is_answered :
-  rust_async_badname_replies = [(1, "async_lookup", true); (35, "async_create", true)].
+  code_shape = {| sh_gate_capacity := false; sh_gate_exempts_forget := true; sh_write_gate := true; sh_commit_skips := true;
+                  sh_lookup_badname := true; sh_create_badname := true |}.
 Proof. reflexivity. Qed.
